@@ -52,7 +52,7 @@ func escapeTemplate(tmpl *Template, node parse.Node, name string) error {
 		err, c.err.Name = c.err, name
 	} else if c.state != stateText {
 		err = &Error{ErrEndContext, nil, name, 0, fmt.Sprintf("ends in a non-text context: %+v", c)}
-	} else if mixedSpecial(c.element) || c.element.split {
+	} else if mixedSpecial(c.element) || c.element.split && couldBeSpecial(c.element) {
 		// The engine's text state is a guess here: under another of its names, or under
 		// its real name, the element that was opened last has a body of its own kind.
 		err = &Error{ErrEndContext, nil, name, 0, fmt.Sprintf("ends in the content of an element whose name is not known: %+v", c)}
@@ -1104,12 +1104,13 @@ func (e *escaper) escapeText(c context, n *parse.TextNode) context {
 		// one longer name where the transition functions see two. The markup is kept as
 		// written, but actions that depend on the name are refused (sanitizerForContext).
 		if c.state == stateTag {
-			c.element.split = true
+			// (An end tag has no element of its own to be mistaken about.)
+			c.element.split = c.element.name != "" || len(c.element.names) > 0
 		} else {
 			c.attr.split, c.element.attrSplit = true, true
 		}
 	}
-	if c.tagNameOpen && continuesName(stateTag, s[0]) {
+	if c.tagNameOpen && continuesName(stateTag, s[0]) && (c.element.name != "" || len(c.element.names) > 0) {
 		// `<textarea{{if .C}} r{{end}}ows="2">`: the tag name goes on if the branch is not taken.
 		c.element.split = true
 	}
